@@ -154,8 +154,7 @@ def r2_freshness(ctx):
     ge = ctx.prog.func(f'{N.GENERIC}.Generic.export')
     rets = symex.returns(ge)
     doc, opt = ge.params[1:3]
-    ok = len(rets) == 1 and src(rets[0][1]) in (f'Exporter().export_string({doc}, {opt})',
-                                                f'Exporter().export_string(document={doc}, options={opt})')
+    ok = len(rets) == 1 and F.same(ctx, ge, rets[0][1], f'Exporter().export_string({doc}, {opt})')
     ctx.check(ok, 'R2', ge.loc, ge.qualname, 'fresh-exporter',
               'Generic.export builds a fresh Exporter per call and forwards (document, options) unswapped',
               f'Generic.export returns `{src(rets[0][1]) if rets else None}`')
